@@ -140,11 +140,17 @@ theorem date_roundtrip (d : Int) (h : dateInRange d = true) :
     rw [scanYmd_fmtYmd _ _ _ (by omega) (by omega) (by omega) (by omega)]
     simp only [hv, hr.1, hr.2, and_self, if_true, hd]
 
-/-- out of chrono's range `Date::fmt` panics (`unwrap` on `None` / i32 overflow) -/
-theorem date_display_out_of_range (d : Int) (h : dateInRange d = false) : displayDate d = .panic := by
+/-- REGRESSION (fixed by 333d59c; was `display:date:out-of-range-panic`): outside chrono's range
+`Date::fmt` no longer panics, it prints a fallback text … -/
+theorem date_display_out_of_range_regression (d : Int) (h : dateInRange d = false) :
+    displayDate d = .ok (dateFallback d) := by
   simp [displayDate, h]
 
--- "2000-02-29" (a leap day), and "1900-02-29" which does not exist
+/-- … which is not a date text: the round trip of such a value is a parse ERROR (known finding
+`roundtrip:date:out-of-range`: `Date` admits every `i32`, the text format only chrono's years). -/
+theorem date_out_of_range_unparseable (d : Int) : parseDate (dateFallback d) = .err := by
+  simp [parseDate, scanYmd, scanYear, dateFallback, skipWs, isWs, takeDigits, isDigit]
+
 example : displayDate 11016 = .ok [50, 48, 48, 48, 45, 48, 50, 45, 50, 57] := by decide
 example : parseDate [50, 48, 48, 48, 45, 48, 50, 45, 50, 57] = .ok 11016 := by decide
 example : parseDate [49, 57, 48, 48, 45, 48, 50, 45, 50, 57] = .err := by decide
@@ -170,28 +176,20 @@ theorem bool_roundtrip (b : Bool) : parseBool (displayBool b) = .ok b := by case
 empty string is C20's `csv:empty-string`) -/
 theorem string_roundtrip (s : Bytes) : (fun t : Bytes => (Out.ok t : Out Bytes)) s = .ok s := rfl
 
-/-! ### blobs: FULL statement is false -/
+/-! ### blobs (full statement, after the fix c766350 of `Blob::from_str`) -/
 
 /-- FULL statement: every blob survives Display + FromStr. -/
 def BlobRoundtripFull : Prop := ∀ b : Bytes, parseBlobText (displayBlob b) = .ok b
 
-/-- proved part: blobs containing neither `\` (0x5C) nor `'` (0x27) -/
-theorem blob_roundtrip_partial (b : Bytes) (h : ∀ x ∈ b, x ≠ 92 ∧ x ≠ 39) :
-    parseBlobText (displayBlob b) = .ok b :=
-  parseBlob_displayBlob b _ (Nat.lt_succ_self _) h
+theorem blob_roundtrip : BlobRoundtripFull :=
+  fun b => parseBlob_displayBlob b _ (Nat.lt_succ_self _)
 
-example : parseBlobText (displayBlob [0, 65, 255, 10, 126, 127]) = .ok [0, 65, 255, 10, 126, 127] :=
-  blob_roundtrip_partial _ (by decide)
-
-/-- witness: the one-byte blob `\` prints as `\\` and parses back as two bytes
-(known finding `roundtrip:blob:backslash-or-quote`, replayed on the implementation) -/
-theorem blob_roundtrip_unsound : ¬ BlobRoundtripFull := by
-  intro h
-  have := h [92]
-  revert this
+/-- REGRESSION (was `blob_roundtrip_unsound`, finding `roundtrip:blob:backslash-or-quote`): the
+one-byte blobs `\` and `'` now come back as they were -/
+theorem blob_backslash_quote_regression :
+    parseBlobText (displayBlob [92]) = .ok [92] ∧ parseBlobText (displayBlob [39]) = .ok [39] ∧
+    parseBlobText (displayBlob [92, 120, 52, 49, 39, 0]) = .ok [92, 120, 52, 49, 39, 0] := by
   decide
-
-example : parseBlobText (displayBlob [39]) = .ok [39, 39] := by decide
 
 /-! ### intervals and timestamps: FULL statements are false (sub-second parts) -/
 
